@@ -17,6 +17,7 @@ fn run_case(fam: &str, args: &[i128]) -> Vec<i128> {
         "adjustable" => adjustable::run(args),
         "csm" => csm::run(args),
         "causal" => causal::run(args, 1),
+        "causalrm" => causal::run_rm(args, 1, true),
         f if f.starts_with("causal_") => causal::run(args, f[7..].parse().unwrap()),
         "collections" => collections::run(args),
         "context" => context::run(args),
